@@ -1010,8 +1010,47 @@ func runDupOut(c *vh.Ctx, cs Case) {
 	}
 }
 
+// ---- a script input beside a mint / deposit input: validateInputs returns at the mint or deposit
+// input before any signature is verified, so the transaction must be refused elsewhere ----------
+
+func runMixed(c *vh.Ctx, cs Case) {
+	b := buildBase(cs, nil)
+	extraIn := &common.Input{}
+	if cs.Kind == "mixed-mint" {
+		extraIn.Mint = &common.MintData{Group: "UNIVERSAL", Batch: 1, Amount: common.NewInteger(5)}
+	} else {
+		extraIn.Deposit = &common.DepositData{Chain: assetID(), AssetKey: "k", Transaction: "t", Index: 0, Amount: common.NewInteger(5)}
+	}
+	if cs.Sum == 0 {
+		b.tx.Inputs = append(b.tx.Inputs, extraIn)
+	} else {
+		b.tx.Inputs = append([]*common.Input{extraIn}, b.tx.Inputs...)
+	}
+	b.tx.Outputs[0].Amount = common.NewInteger(5)
+	ver := b.tx.AsVersioned()
+	var h crypto.Hash
+	var err error
+	pan, _ := vh.Catch(func() { h = ver.PayloadHash() })
+	d := "panic"
+	if !pan {
+		maps, _ := makeSigs(cs, b, h)
+		for len(maps) < len(b.tx.Inputs) {
+			maps = append(maps, map[uint16]*crypto.Signature{})
+		}
+		ver.SignaturesMap = maps
+		pan, _ = vh.Catch(func() { err = ver.Validate(b.st, 1700000000000000000, false) })
+		d = decision(pan, err)
+	}
+	c.Case(cs.Kind, fmt.Sprintf("%s|%d|%s", cs.Kind, cs.Sum, cs.Privs[0]), d == "reject", cs, "")
+	if d == "accept" {
+		c.Fail("script-input-spent-beside-"+cs.Kind, "a transaction spending a script input without signatures next to a mint/deposit input was accepted", cs)
+	}
+}
+
 func run(c *vh.Ctx, cs Case) {
 	switch cs.Op {
+	case "mixed":
+		runMixed(c, cs)
 	case "inputs":
 		runInputs(c, cs)
 	case "script":
